@@ -40,8 +40,8 @@ type vopSpec struct {
 	AdvHost   string `json:"adv_host"`
 	AdvPort   *int32 `json:"adv_port"`
 	// C42 dimensions
-	Etcd      string `json:"etcd,omitempty"`       // "" / "managed": operator-managed etcd; "spec": spec.etcd.endpoints set
-	S3        int    `json:"s3,omitempty"`         // 0 bucket+region; 1 +endpoint; 2 +credentialsSecretRef; 3 both
+	Etcd      string `json:"etcd,omitempty"` // "" / "managed": operator-managed etcd; "spec": spec.etcd.endpoints set
+	S3        int    `json:"s3,omitempty"`   // 0 bucket+region; 1 +endpoint; 2 +credentialsSecretRef; 3 both
 	ReadRepl  bool   `json:"read_replica,omitempty"`
 	Config    bool   `json:"config,omitempty"`
 	Resources bool   `json:"resources,omitempty"`
